@@ -99,9 +99,9 @@ def known_related(keybase: str) -> bool:
         for f in load_known_findings():
             if f.get("status") == "open":
                 for pat in f.get("obligations", []):
-                    parts = pat.replace("[[]", "[").replace("[]]", "]").split("/")
-                    _KF_PREFIXES.add("/".join(parts[:2]))
-    return "/".join(keybase.split("/")[:2]) in _KF_PREFIXES
+                    _KF_PREFIXES.add("/".join(pat.split("/")[:2]))
+    pre = "/".join(keybase.split("/")[:2])
+    return any(fnmatch.fnmatchcase(pre, p) for p in _KF_PREFIXES)
 
 
 class Check:
